@@ -19,7 +19,11 @@ VARIABLE l
 
 FsOf(seq) == [p \in {seq[i].p : i \in DOMAIN seq} |->
                 LET i == CHOOSE j \in DOMAIN seq : seq[j].p = p IN [c |-> seq[i].c, m |-> seq[i].m]]
-FreshOf(seq) == [p \in {seq[i].p : i \in DOMAIN seq} |-> LET i == CHOOSE j \in DOMAIN seq : seq[j].p = p IN seq[i].c]
+(* u: the content of this file is not reproducible between two runs into empty directories (a time stamp, say): *)
+(* whatever the run wrote counts as fresh, the other clauses (existence, mode, no-overwrite) stay in force        *)
+FreshOf(seq, post) == [p \in {seq[i].p : i \in DOMAIN seq} |->
+                         LET i == CHOOSE j \in DOMAIN seq : seq[j].p = p
+                         IN IF seq[i].u /\ p \in DOMAIN post THEN post[p].c ELSE seq[i].c]
 
 (* I-layer prediction of a whole run from the shared per-file operators (contents are opaque here, so Write is *)
 (* "the file now holds fresh[f]", i.e. the truncating open of the code)                                        *)
@@ -51,7 +55,7 @@ Say(id, clause, more) == PrintT(<<"REJECT", id, clause, Cardinality(more)>>)   \
 
 TRun(r) ==
     LET post  == FsOf(r.post)
-        fresh == FreshOf(r.fresh)
+        fresh == FreshOf(r.fresh, post)
         bad   == FailedClauses(fs, r.o, fresh, r.fok, r.st, post)
         pred  == IRun(fs, r.o, fresh, r.ord, r.lpp, r.priv, <<>>)
     IN  /\ IF bad # {} THEN Say(r.id, FirstClause(bad), bad)
